@@ -72,6 +72,10 @@ def gen_config(rng):
         init = init[:rng.randrange(0, depth + 1)]
     cfg = {"shape": shape, "depth": depth, "init": init, "domains": doms, "wports": wports, "rports": rports,
            "resets": rng.random() < 0.3}
+    if rng.random() < 0.35:
+        # another memory with write ports of its own elaborated in the same module *before* this one (port
+        # numbering of one memory must not leak into the other's transparency masks)
+        cfg["sibling_write_ports"] = rng.choice([1, 2, 3])
     if len(dn) == 2 and rng.random() < 0.4:
         # the memory sits under a DomainRenamer that exchanges the two domains: its ports are declared in the
         # opposite domain (one simultaneous substitution; the order of the map entries must not matter)
@@ -169,6 +173,18 @@ def build(cfg):
         b.cds[name] = cd
     shape = real_shape(cfg["shape"])
     mem = Memory(shape=shape, depth=cfg["depth"], init=[real_init(cfg["shape"], v) for v in cfg["init"]])
+    if cfg.get("sibling_write_ports"):
+        from amaranth.hdl import Signal
+        aux = Memory(shape=4, depth=2, init=[5, 9])
+        m.submodules.aux = aux
+        b.aux_q = Signal(4, name="aux_q")
+        ctr = Signal(4, name="aux_ctr")
+        m.d.d0 += ctr.eq(ctr + 3)
+        for k in range(cfg["sibling_write_ports"]):
+            awp = aux.write_port(domain="d0")
+            m.d.comb += [awp.addr.eq(ctr[k % 4]), awp.data.eq(ctr + k), awp.en.eq(ctr[(k + 1) % 4])]
+        arp = aux.read_port(domain="comb")
+        m.d.comb += [arp.addr.eq(ctr[3]), b.aux_q.eq(arp.data)]
     ren = cfg.get("renamed")
     declared = (lambda d: d)
     if ren:
@@ -365,7 +381,9 @@ def cosim(cfg, steps, out, use_rtlil=True):
     if ev is not None:
         for path, sc in ev.scopes.items():
             if sc.mems:
-                mem_scope = (path, next(iter(sc.mems)))
+                names = [nm for nm in sc.mems if "aux" not in nm]
+                if names:
+                    mem_scope = (path, names[0])
         for name in port_map(b, cfg):
             if not name.endswith("_data") or name.startswith("w"):
                 try:
